@@ -21,7 +21,15 @@ def run(ctx):
     try:
         for i, rng in ctx.cases("files", ctx.n(2600, 40000)):
             kind = KINDS[i % len(KINDS)]
-            d = tempfile.mkdtemp(dir=tmp)
+            # half of the files are written to a path already used by an earlier file of the same kind (a data file
+            # refreshed in place): the reader must return what the file says *now*
+            if rng.random() < 0.5:
+                d = os.path.join(tmp, "reused-" + kind)
+                shutil.rmtree(d, ignore_errors=True)
+                os.mkdir(d)
+                ctx.rec.ok("path_reused", kind)
+            else:
+                d = tempfile.mkdtemp(dir=tmp)
             try:
                 globals()["do_" + kind.split("_")[0]](ctx.rec, rng, ws, xr, d, kind)
             finally:
